@@ -88,7 +88,7 @@ def build_topology(sites, links, roadm_params=None, trx=True, name='verif'):
             prev = f'roadm {x}'
             for i, e in enumerate(chain):
                 e = copy.deepcopy(e)
-                e.setdefault('uid', f'{x}>{y}:{i}:{e["type"]}')
+                e = dict({'uid': e.get('uid', f'{x}>{y}:{i}:{e["type"]}')}, **e)     # list key first (libyang's JSON parser)
                 els.append(e)
                 cons.append({'from_node': prev, 'to_node': e['uid']})
                 prev = e['uid']
